@@ -1,10 +1,12 @@
 \* exhaustive: reward sequences of length 1..4 over {-1,0,2}, gamma in {0, 1/2, 1, 2, 3, 3/2}
+\* (the long-sequence lemmas are checked in FeatStatsReturn_long.cfg, on the cases that get embedded, and in the thorough cfg)
 INIT Init
 NEXT Next
 CONSTANTS
   MaxLen = 4
   RVals <- RValsQ
   Gammas <- GammasQ
+  PadMax = 3
 INVARIANT ReturnIsRecurrence
 INVARIANT ClosedFormIsRecurrence
 INVARIANT Export
